@@ -26,8 +26,11 @@ The second half of this file (`HClass`, `hRegister`, `hWorld`) is the general sh
 `parents` chain and may RE-DECLARE registry points; the flat model is its special case and the driver checks
 that the two agree where both apply.
 
-Not modelled: the propagation of the point's flags (filterable, raw, multi_output, no_obfuscate, no_redact,
-prio) onto the implementation; the rejection of multiple inheritance (`len(bases) > 1`).
+The third part (`FReg`, `fRegister`) models the PROPAGATION OF THE POINT'S FLAGS (filterable, raw, multi_output,
+no_obfuscate, no_redact, prio: one opaque value `Flags` per component) onto whatever is wired to it
+(`_resolve_registry_points`, the six `v.x = delegate.x = point.x` assignments), over the same histories.
+
+Not modelled: the rejection of multiple inheritance (`len(bases) > 1`).
 -/
 namespace IV.Specs
 open IV.Dr
@@ -257,5 +260,51 @@ def hWorld (env : World) (r : HReg) : World where
 def famLeaves (r : HReg) : Nat → Comp → List Comp
   | 0, _ => []
   | f + 1, p => (r.deps p).flatMap (fun d => if r.isPoint d then famLeaves r f d else [d])
+
+/-! ### propagation of the registry point's flags
+
+`_resolve_registry_points`, the block between `point = base.registry[k]` and `dr.add_dependency(point, v)`:
+`v.filterable = delegate.filterable = point.filterable` … `v.prio = delegate.prio = point.prio`.  The six
+attributes travel together, so a component carries ONE opaque value `Flags` (the harness encodes the tuple).
+`own c` is what the component was created with (`RegistryPoint(multi_output=…)`, `@datasource(…, raw=…)`).
+What is wired (a datasource, or a RE-DECLARED RegistryPoint, which is a datasource too) takes the flags the
+point of `bases[0]` has AT THAT MOMENT and becomes its dependency; the machine below keeps its own copy of
+`registry` and `deps` (theorem `flags_machine_agrees`: they are those of `hRegister`). -/
+
+abbrev Flags := Nat
+
+structure FReg where
+  nclasses : Nat
+  registry : ClassId → Name → Option Comp
+  deps : Comp → List Comp
+  flags : Comp → Flags
+
+def FReg.init (own : Comp → Flags) : FReg := ⟨0, fun _ _ => none, fun _ => [], own⟩
+
+def fAttach (ps : List ClassId) (n : Name) (v : Comp) (r : FReg) : FReg :=
+  match ps with
+  | [] => r
+  | b :: _ =>
+    match r.registry b n with
+    | none => r
+    | some pt =>
+      { r with flags := fun x => if x = v then r.flags pt else r.flags x
+               deps := fun x => if x = pt then r.deps x ++ [v] else r.deps x }
+
+def fRegEntry (k : ClassId) (ps : List ClassId) (r : FReg) (e : HEntry) : FReg :=
+  if e.isPoint then
+    fAttach ps e.name e.comp
+      { r with registry := fun k' m => if k' = k ∧ m = e.name then some e.comp else r.registry k' m }
+  else if e.isDs then fAttach ps e.name e.comp r
+  else r
+
+def fRegClass (r : FReg) (cd : HClass) : FReg :=
+  let r' := cd.entries.foldl (fRegEntry r.nclasses cd.parents) r
+  { r' with nclasses := r.nclasses + 1 }
+
+def fRegister (own : Comp → Flags) (h : HHistory) : FReg := h.foldl fRegClass (FReg.init own)
+
+/-- the components created by a history, in creation order (one per attribute of a class body) -/
+def hComps (h : HHistory) : List Comp := (h.flatMap (·.entries)).map (·.comp)
 
 end IV.Specs
